@@ -1022,7 +1022,15 @@ pub fn unknown_record(number: u32, kind: u8, payload: &[u8]) -> Vec<u8> {
     match kind % 5 {
         0 => {
             put_key(&mut o, number, 0);
-            put_varint(&mut o, payload.iter().fold(0u64, |a, b| a.wrapping_mul(131).wrapping_add(*b as u64)));
+            // every varint width up to the ten bytes of a negative int32 / int64 / enum
+            let x = payload.iter().fold(0u64, |a, b| a.wrapping_mul(131).wrapping_add(*b as u64));
+            let v = match payload.len() % 4 {
+                0 => x,
+                1 => u64::MAX - x,
+                2 => x << (7 * (payload.first().copied().unwrap_or(0) as u32 % 9)),
+                _ => (x as i32 as i64 | i64::MIN >> 32) as u64,
+            };
+            put_varint(&mut o, v);
         }
         1 => {
             put_key(&mut o, number, 1);
